@@ -300,6 +300,9 @@ impl Checker for OwnChecker {
                 ("position.Close", FuOp::ClosePos { u: 0, id: "u-x".into(), partial: None }, Box::new(|s| s == C)),
                 ("position.Withdraw(emergency)", FuOp::WithdrawPos { u: 0, id: "u-x".into(), emergency: Some(true) }, Box::new(|s| s == C)),
                 ("position.CreateFor(C)", FuOp::CreatePos { u: 0, lp: 0, amount: 5, dur: DAY, id: None, recv: Some(C) }, Box::new(|s| s == C || s == 4)),
+                // the delegate's own entry points: a locked deposit into C's position through the pool manager is C's alone
+                ("pool.ProvideLiquidity(lock into u-x)", FuOp::ProvideLock { u: 0, lp: 0, amount: 5000, dur: DAY, lock_id: Some("u-x".into()) }, Box::new(|s| s == C)),
+                ("pool.ProvideLiquidity(single asset, lock into u-x)", FuOp::ProvideLockSingle { u: 0, lp: 0, amount: 10_001, dur: DAY, lock_id: Some("u-x".into()) }, Box::new(|s| s == C)),
             ];
             for (label, op, entitled) in cases {
                 for s in 0..6usize {
@@ -332,7 +335,7 @@ impl Checker for OwnChecker {
 fn with_sender(op: &FuOp, s: usize) -> FuOp {
     let mut o = op.clone();
     match &mut o {
-        FuOp::CloseFarm { u, .. } | FuOp::ExpandFarm { u, .. } | FuOp::ExpandPos { u, .. } | FuOp::ClosePos { u, .. } | FuOp::WithdrawPos { u, .. } | FuOp::CreatePos { u, .. } => *u = s,
+        FuOp::CloseFarm { u, .. } | FuOp::ExpandFarm { u, .. } | FuOp::ProvideLock { u, .. } | FuOp::ProvideLockSingle { u, .. } | FuOp::ExpandPos { u, .. } | FuOp::ClosePos { u, .. } | FuOp::WithdrawPos { u, .. } | FuOp::CreatePos { u, .. } => *u = s,
         _ => {}
     }
     o
